@@ -27,6 +27,7 @@ Print Assumptions loaded_never_runs_again.
       with nothing changed but the loader's chunk cache; while the placeholder is there the module's
       chunk is never entered; no placeholder survives the outermost import *)
 Theorem cycle_is_error : forall C rec f nm all s p,
+    file_broken C p = false ->
     non_local C s f nm = None -> find_module C nm (fdir f) = Some p -> mc_get p (mcache s) = Some None ->
     exists s', run_import C rec f nm all s = Some (Err ECycle, s') /\
                mcache s' = mcache s /\ trace s' = trace s /\ heap s' = heap s /\ exports s' = exports s.
@@ -62,13 +63,42 @@ Print Assumptions failed_import_rolls_back.
    resolving to it runs its chunk again (first thing) *)
 Theorem reimport_after_failure_runs_again : forall C fuel f nm all s r s1 em p,
     WF s -> imp C fuel f nm all s = Some (r, s1) -> trace s1 = trace s ++ em ->
-    In (EvRun p) em -> ~ In (EvLoaded p) em ->
+    In (EvRun p) em -> ~ In (EvLoaded p) em -> file_broken C p = false ->
     mc_get p (mcache s1) = None /\
     forall fuel2 f2 nm2 all2 r2 s2,
       non_local C s1 f2 nm2 = None -> find_module C nm2 (fdir f2) = Some p ->
       imp C (S fuel2) f2 nm2 all2 s1 = Some (r2, s2) -> exists em2, trace s2 = trace s1 ++ EvRun p :: em2.
 Proof. exact T_reimport_after_failure_runs_again. Qed.
 Print Assumptions reimport_after_failure_runs_again.
+
+(* a failing import removes only its OWN placeholder (the statement of run_import's error branch is read
+   from vm.rs into GenModPins.failure_cleanup, on which the model dispatches): modules still being
+   imported keep theirs, and an import leading back to one of them is still the recursive-import error *)
+Theorem failed_import_keeps_other_placeholders : forall C fuel f nm all s e s' q,
+    WF s -> imp C fuel f nm all s = Some (Err e, s') ->
+    mc_get q (mcache s) = Some None -> mc_get q (mcache s') = Some None.
+Proof. exact T_failed_import_keeps_other_placeholders. Qed.
+Print Assumptions failed_import_keeps_other_placeholders.
+
+Theorem cycle_detected_after_failed_import : forall C fuel f nm all s e s1 q rec f2 nm2 all2,
+    WF s -> imp C fuel f nm all s = Some (Err e, s1) ->
+    mc_get q (mcache s) = Some None -> file_broken C q = false ->
+    non_local C s1 f2 nm2 = None -> find_module C nm2 (fdir f2) = Some q ->
+    exists s2, run_import C rec f2 nm2 all2 s1 = Some (Err ECycle, s2) /\ trace s2 = trace s1.
+Proof. exact T_cycle_detected_after_failed_import. Qed.
+Print Assumptions cycle_detected_after_failed_import.
+
+Theorem pinned_cleanup_removes_own_placeholder : failure_cleanup = CleanupRemoveOwn.
+Proof. reflexivity. Qed.
+Print Assumptions pinned_cleanup_removes_own_placeholder.
+
+(* a module file that does not compile: the import is an error, nothing runs, nothing is cached *)
+Theorem compile_error_leaves_nothing : forall C rec f nm all s p,
+    non_local C s f nm = None -> find_module C nm (fdir f) = Some p ->
+    existsb (path_eqb p) (chunks s) = false -> file_broken C p = true ->
+    run_import C rec f nm all s = Some (Err ECompile, s).
+Proof. exact T_compile_error_leaves_nothing. Qed.
+Print Assumptions compile_error_leaves_nothing.
 
 (* 4. `export k = e`: k is readable by the following code and is in the exports map (which is what
       importers receive and what Koto::exports() shows for a host script) *)
@@ -163,4 +193,16 @@ Proof. eexists. eexists. split; [vm_compute; reflexivity|]. split; vm_compute; r
 Example clear_reruns : exists s',
     host_history Cx 6 [imp1 1; HClear; imp1 1] init_st = Some ([Ok tt; Ok tt; Ok tt], s') /\
     filter is_stdout (trace s') = [EvMark 100; EvMark 200; EvMark 100; EvMark 200].
+Proof. eexists. split; vm_compute; reflexivity. Qed.
+
+(* a caught failing import inside a module that is still loading, then a cycle back to that module:
+   1 = [try import 2 (fails); import 3], 3 = [import 1]: the cycle is still reported, 1 runs once *)
+Definition Cy : cfg :=
+  {| files := [(([], 1), [Marker 100; TryImport 2 None 400; Import (ImpMod 3 None); Marker 200]);
+               (([], 2), [Marker 101; Fail]);
+               (([], 3), [Marker 102; Import (ImpMod 1 None); Marker 202])];
+     prelude := []; run_import_tests := true |}.
+Example caught_failure_then_cycle : exists s',
+    host_history Cy 6 [imp1 1] init_st = Some ([Err ECycle], s') /\
+    filter is_stdout (trace s') = [EvMark 100; EvMark 101; EvMark 400; EvMark 102].
 Proof. eexists. split; vm_compute; reflexivity. Qed.
